@@ -762,7 +762,7 @@ type chainCase struct {
 func TestDeepChains(t *testing.T) {
 	vlib.Run(t, vlib.Prop[chainCase]{Name: "deep-location-chains", Checks: 300, Thorough: 20000,
 		Gen: func(t *rapid.T) chainCase {
-			return chainCase{Depth: rapid.OneOf(rapid.IntRange(1, 60), rapid.SampledFrom([]int{998, 999, 1000})).Draw(t, "depth"),
+			return chainCase{Depth: rapid.OneOf(rapid.IntRange(1, 60), rapid.SampledFrom([]int{998, 999, 1000, 1001})).Draw(t, "depth"),
 				Offsets: rapid.SliceOfN(rapid.IntRange(-50, 500), 1, 7).Draw(t, "offsets"), Orients: rapid.SliceOfN(rapid.SampledFrom([]int{1, -1}), 1, 5).Draw(t, "orients")}
 		},
 		Check: func(c chainCase) *vlib.Failure {
@@ -778,6 +778,15 @@ func TestDeepChains(t *testing.T) {
 				prod *= ori
 			}
 			leaf, root := fs[len(fs)-1], fs[0]
+			if c.Depth > 1000 {
+				// 1000 links between the leaf and the root: the documented limit of OrientationWithin
+				// ("deeper than 1000 links" panics; exactly 1000 is still answered). The other three
+				// functions count one step more on the unchanged tree and are asked up to 999 links.
+				if got := feat.OrientationWithin(leaf, root); int(got) != prod*c.Orients[0] {
+					return vlib.Failf("orientation-within", "%d links: OrientationWithin(root) = %d want %d", c.Depth-1, got, prod*c.Orients[0])
+				}
+				return nil
+			}
 			got, r := feat.BasePositionOf(leaf, 5)
 			if got != 5+sum || r != root {
 				return vlib.Failf("base-position", "depth %d: BasePositionOf = %d want %d", c.Depth, got, 5+sum)
